@@ -196,7 +196,7 @@ func (p *Parser) parseComment() ast.Node {
 	isBlockComment := (p.curToken.Type() == token.BLOCKCOMMENT)
 	log.Debugf("parseComment: %#v", r)
 	if isBlockComment {
-		if !strings.HasSuffix(p.curToken.Literal(), "*/") {
+		if lit := p.curToken.Literal(); len(lit) < 4 || !strings.HasSuffix(lit, "*/") { // (/*/ isn't closed)
 			log.LogVf("parseComment: block comment not closed: %s", p.curToken.DebugString())
 			if p.l.EOLEOF() == token.EOLT {
 				p.continuationNeeded = true // line mode: the rest may come with the next line.
